@@ -1662,9 +1662,13 @@ def compile_function_def(compiler, expr, root, is_async, decorators, tp, name, p
     with compiler.local_state(), compiler.scope.create(ScopeFn, args, is_async) as scope:
         body = compiler._compile_branch(body)
 
-    return ret + compile_function_node(
+    ret += compile_function_node(
         compiler, expr, node, decorators, tp, name, args, returns, body, scope
     )
+    # Unlike the anonymous name of an `fn`, the name of a `defn` is
+    # chosen by the user, so `compile_assign` mustn't rename it.
+    ret.temp_variables = []
+    return ret
 
 
 def compile_function_node(compiler, expr, node, decorators, tp, name, args, returns, body, scope):
